@@ -212,6 +212,16 @@ func (h *Hub) connectFoundService(remoteService *api.ServiceDetails, host, port,
 	}
 
 	h.muxConSetup.Lock()
+
+	// the pairing may have been removed or cancelled while the connection was being established
+	pairingState := h.ServiceForSKI(remoteService.SKI()).ConnectionStateDetail().State()
+	if !h.IsRemoteServiceForSKIPaired(remoteService.SKI()) && pairingState != api.ConnectionStateQueued {
+		h.muxConSetup.Unlock()
+		logging.Log().Debugf("closing connection to %s: the service is no longer paired", remoteService.SKI())
+		_ = conn.Close()
+		return nil
+	}
+
 	if !h.keepThisConnection(conn, false, remoteService) {
 		h.muxConSetup.Unlock()
 		errorString := fmt.Sprintf("closing connection to %s: ignoring this connection", remoteService.SKI())
